@@ -241,6 +241,7 @@ type Engine struct {
 	fmtDepth int
 	forkSites map[string]int
 	varSign   map[string]sign
+	pcSet     map[string]bool
 	cur      *frame // innermost frame (diagnostics only)
 }
 
@@ -328,6 +329,7 @@ func (e *Engine) RunPath(spec *HarnessSpec, res *HarnessResult, prefix []bool) (
 	e.prefix, e.taken, e.pc, e.defs, e.decls, e.names, e.fresh = prefix, nil, nil, nil, nil, nil, 0
 	e.refine = nil
 	e.varSign = map[string]sign{}
+	e.pcSet = map[string]bool{}
 	e.declSet = map[string]bool{}
 	e.steps, e.covers, e.obs, e.newWork, e.blobs, e.world = 0, nil, nil, nil, nil, nil
 	e.obsTerms = map[string]*Term{}
@@ -577,11 +579,9 @@ func (e *Engine) decide(c *Term) bool {
 	}
 	e.taken = append(e.taken, dir)
 	if dir {
-		e.pc = append(e.pc, c)
-		e.noteAtom(c)
+		e.addPC(c)
 	} else {
-		e.pc = append(e.pc, Not(c))
-		e.noteAtom(Not(c))
+		e.addPC(Not(c))
 	}
 	return dir
 }
@@ -593,6 +593,16 @@ func (e *Engine) assume(c *Term) {
 	if c.Op == "false" {
 		panic(pathEnd{"assume false"})
 	}
+	e.addPC(c)
+}
+
+// addPC appends a conjunct to the path condition (deduplicated).
+func (e *Engine) addPC(c *Term) {
+	k := c.String()
+	if e.pcSet[k] {
+		return
+	}
+	e.pcSet[k] = true
 	e.pc = append(e.pc, c)
 	e.noteAtom(c)
 }
